@@ -41,10 +41,10 @@ TEXT = {
         'level_note': 'Variant clients are uninterpreted functions of the address (deterministic server); response labelling and all status decoding are not covered (evidence.not_covered). A change inside java.rs / bedrock.rs / legacy_*.rs parsing is invisible to this check.',
     },
     'C04': {
-        'technique': 'Verus contracts on the real GameSpy 3 functions data_to_map (key/value block of a data packet), receive (framing), make_initial_handshake, send_data_request and get_server_packets_impl (packet table)',
+        'technique': 'Verus contracts on the real GameSpy 3 functions data_to_map (key/value block of a data packet), receive (framing), make_initial_handshake, send_data_request, get_server_packets_impl (packet table) and on the GameSpy 2 functions request_data_impl (request, reply header) and get_server_vars (variable block)',
         'engine': 'verus',
-        'level_text': 'PARTIAL: GameSpy 3 only, and of it the transport-level part. Unbounded proof that a data packet body consisting of any number of key/value strings closed by an empty key decodes to exactly those pairs (a later duplicate key replacing the earlier) plus the untouched remainder, that reply framing (kind, session id) is checked and stripped, and that the packet table holds each packet under its id. NOT decided by any check: GameSpy 1, GameSpy 2, the player / team sections, the typed response fields and the unused-entries rule (str::split / parse / table code outside both verifiers).',
-        'level_note': 'A change in GameSpy 1 or 2, in parse_players_and_teams, in has_password or in the field extraction of the three query functions is invisible to this check; see evidence.not_covered.',
+        'level_text': 'PARTIAL: the transport-level and variable-block parts of GameSpy 3 and GameSpy 2. Unbounded proof that a GameSpy 2 reply with the right header is handed on with the index of its body and that its variable block (key/value strings up to an empty key with an empty value) yields exactly those pairs with the cursor left on the closing NUL; that a GameSpy 3 data packet body consisting of any number of key/value strings closed by an empty key decodes to exactly those pairs (a later duplicate key replacing the earlier) plus the untouched remainder, that reply framing (kind, session id) is checked and stripped, and that the packet table holds each packet under its id. NOT decided by any check: GameSpy 1, the GameSpy 2 tables, the GameSpy 3 player / team sections, the typed response fields and the unused-entries rule (str::split / parse / table code outside both verifiers).',
+        'level_note': 'A change in GameSpy 1, in data_as_table / get_players / get_teams, in parse_players_and_teams, in has_password or in the field extraction of the three query functions is invisible to this check; see evidence.not_covered.',
     },
     'C08': {
         'technique': 'Verus contract and loop invariants on the real ValveProtocol::receive (split-packet reassembly): ghost sequence of fragments, concatenation function, insertion-position invariant',
